@@ -54,6 +54,28 @@ int main(int argc, char **argv) {
         free(all); sodium_free(gs); sodium_free(go); (void) o256; (void) o512;
         v_close(); return 0;
     }
+    if (argc > 5 && !strcmp(argv[5], "huge")) {
+        /* 4 GiB + 1 MiB of (sparse, mostly zero) data: lengths whose upper 32 bits matter, in 1 GiB updates; counters in KiB */
+        size_t tot = ((size_t) 4 << 30) + ((size_t) 1 << 20), done_ = 0;
+        unsigned char *big = (unsigned char *) mmap(NULL, tot, PROT_READ | PROT_WRITE, MAP_PRIVATE | MAP_ANONYMOUS | MAP_NORESERVE, -1, 0);
+        if (big == MAP_FAILED) { v_close(); return 0; }
+        big[5] = 1; big[((size_t) 1 << 31) + 9] = 2; big[((size_t) 1 << 32) + 77] = 3; big[tot - 1] = 4;
+        crypto_hash_sha256_state s256; crypto_hash_sha512_state s512; crypto_generichash_state *gs = (crypto_generichash_state *) sodium_malloc(crypto_generichash_statebytes());
+        if (is256) crypto_hash_sha256_init(&s256); else if (is512) crypto_hash_sha512_init(&s512); else crypto_generichash_init(gs, NULL, 0, 64);
+        v_emit("{\"e\":\"init\",\"alg\":\"%s\",\"key\":0,\"buflen\":0,\"ctr\":0}", alg);
+        while (done_ < tot) { size_t n = tot - done_ > ((size_t) 1 << 30) ? ((size_t) 1 << 30) : tot - done_; unsigned long long ctr;
+            if (is256) { crypto_hash_sha256_update(&s256, big + done_, n); ctr = s256.count >> 3; }
+            else if (is512) { crypto_hash_sha512_update(&s512, big + done_, n); ctr = s512.count[1] >> 3; }
+            else { crypto_generichash_update(gs, big + done_, n); uint64_t a, b; memcpy(&a, (unsigned char *) gs + 64, 8); memcpy(&b, (unsigned char *) gs + 352, 8); ctr = a + b; }
+            done_ += n;
+            v_emit("{\"e\":\"upd\",\"n\":%zu,\"buflen\":%d,\"ctr\":%llu,\"unit\":1024,\"exact\":%s}", n >> 10, 0, ctr >> 10, (ctr & 1023) == 0 ? "true" : "false"); }
+        int ret, same;
+        if (is256) { ret = crypto_hash_sha256_final(&s256, d1); crypto_hash_sha256(d2, big, tot); same = !memcmp(d1, d2, 32); }
+        else if (is512) { ret = crypto_hash_sha512_final(&s512, d1); crypto_hash_sha512(d2, big, tot); same = !memcmp(d1, d2, 64); }
+        else { ret = crypto_generichash_final(gs, d1, 64); crypto_generichash(d2, 64, big, tot, NULL, 0); same = !memcmp(d1, d2, 64); }
+        v_emit("{\"e\":\"final\",\"ret\":%d,\"same\":%s,\"total\":%zu,\"reference\":true}", ret, same ? "true" : "false", tot >> 10);
+        sodium_free(gs); munmap(big, tot); v_close(); return 0;
+    }
     for (int h = 0; h < nh; h++) {
         size_t total = 0; int nupd = 1 + (int) vrng_below(&rng, 9);
         vrng_bytes(&rng, key, 64);
